@@ -129,9 +129,22 @@ func runProperty(prop, tier string) (code int) {
 	var all []Obligation
 	var funcs, sites int
 	var assumptions []string
+	var skippedArch []string
 	for _, arch := range archs {
 		ctx, err := load(*flagRepo, arch, false)
 		if err != nil {
+			if arch != "amd64" {
+				// the repository does not build for this architecture (at the pinned commit
+				// gsap.go passes the untyped constant maxUint32 to fmt.Errorf, which overflows
+				// int on 32-bit targets): recorded, not decided, not a verdict
+				msg := err.Error()
+				if len(msg) > 300 {
+					msg = msg[:300] + "…"
+				}
+				assumptions = append(assumptions, "build GOARCH="+arch+" not analysed: "+msg)
+				skippedArch = append(skippedArch, arch)
+				continue
+			}
 			fmt.Printf("lzcheck: cannot analyse %s (%s): %v\n", *flagRepo, arch, err)
 			return 2
 		}
@@ -204,6 +217,24 @@ func runProperty(prop, tier string) (code int) {
 		}
 	}
 
+	if len(skippedArch) > 0 {
+		var kept []string
+		for _, a := range archs {
+			skip := false
+			for _, s := range skippedArch {
+				if s == a {
+					skip = true
+				}
+			}
+			if !skip {
+				kept = append(kept, a)
+			}
+		}
+		archs = kept
+	}
+	if tier == "thorough" && !*flagNoEv && os.Getenv("LZ_NO_SELFVAL") == "" {
+		selfval = selfValidate(prop)
+	}
 	wall := time.Since(start).Seconds()
 	if !*flagNoEv {
 		if err := writeEvidence(prop, tier, spec, all, funcs, sites, assumptions, nviol, nknown, wall, archs); err != nil {
